@@ -12,6 +12,7 @@ They hold over any nontrivially normed field: ℝ, ℂ (complex step), ℚ (the 
 -/
 import GemseoVerif.Lemmas.C10Tree
 import GemseoVerif.Analysis.C10Aggregation
+import GemseoVerif.Lemmas.C10Ordered
 
 namespace GV.C10
 
@@ -245,6 +246,99 @@ theorem linear_overrides_agree (L : LinF 𝕜) (x : ℕ → 𝕜) (c : List 𝕜
       rw [← sumTo_neg]; exact sumTo_congr (fun j _ => by ring)
     rw [this]; ring
   · simp only [LinF.eval, LinF.offset, DV.addC]; ring
+
+/-! ### Aggregations, second-order Taylor polynomial and convex linearisation of a tree
+
+These nodes take the (value, Jacobian) pair of their operand — any tree of the algebraic
+fragment by the main theorem, or any pair that is exact (`Den`) — and the pair they return is
+again exact: the statements compose. -/
+
+section SpecialNodes
+
+/-- `aggregate_sum_square` of a tree (any field). -/
+theorem sum_of_squares_aggregation_exact [LT 𝕜] [DecidableRel (α := 𝕜) (· < ·)]
+    (env : ℕ → ℕ → (ℕ → 𝕜) → DV 𝕜) (envF : ℕ → ℕ → (ℕ → 𝕜) → ℕ → 𝕜) (envM : ℕ → ℕ → ℕ) (thr : 𝕜)
+    (henv : ∀ id n y, Den n y (env id n y) (envF id n) (envM id n))
+    {n : ℕ} {e : Expr 𝕜} {M : ℕ} (hwf : WF envM n e M) (x : ℕ → 𝕜) (hs : Safe envF envM n e x)
+    (idx : Option (List ℕ)) (scale : List 𝕜) (hsel : ∀ k, k < selLen idx M → selIdx idx k < M) :
+    Den n x (evalTree env thr n (.agg .sumsq idx scale e) x)
+      (fun y _ => sumTo (selLen idx M) (fun k => vec scale (bi scale.length k)
+        * (den envF envM n e y (selIdx idx k) * den envF envM n e y (selIdx idx k)))) 1 := by
+  have h := tree_value_and_jacobian_exact env envF envM thr henv hwf x hs
+  simpa [evalTree, build, Obj.eval] using aggSumSq_den h idx scale hsel
+
+/-- `aggregate_positive_sum_square` of a tree (ℝ): exact at every point. -/
+theorem positive_sum_of_squares_aggregation_exact
+    (env : ℕ → ℕ → (ℕ → ℝ) → DV ℝ) (envF : ℕ → ℕ → (ℕ → ℝ) → ℕ → ℝ) (envM : ℕ → ℕ → ℕ) (thr : ℝ)
+    (henv : ∀ id n y, Den n y (env id n y) (envF id n) (envM id n))
+    {n : ℕ} {e : Expr ℝ} {M : ℕ} (hwf : WF envM n e M) (x : ℕ → ℝ) (hs : Safe envF envM n e x)
+    (idx : Option (List ℕ)) (scale : List ℝ) (hsel : ∀ k, k < selLen idx M → selIdx idx k < M) :
+    Den n x (evalTree env thr n (.agg .possumsq idx scale e) x)
+      (fun y _ => sumTo (selLen idx M) (fun k => vec scale (bi scale.length k)
+        * posSq (den envF envM n e y (selIdx idx k)))) 1 := by
+  have h := tree_value_and_jacobian_exact env envF envM thr henv hwf x hs
+  simpa [evalTree, build, Obj.eval] using aggPosSumSq_den h idx scale hsel
+
+/-- `aggregate_max` of a tree (ℝ): the value is the maximum of the scaled components and the
+    Jacobian is its derivative wherever the maximiser is unique. -/
+theorem max_aggregation_exact
+    (env : ℕ → ℕ → (ℕ → ℝ) → DV ℝ) (envF : ℕ → ℕ → (ℕ → ℝ) → ℕ → ℝ) (envM : ℕ → ℕ → ℕ) (thr : ℝ)
+    (henv : ∀ id n y, Den n y (env id n y) (envF id n) (envM id n))
+    {n : ℕ} {e : Expr ℝ} {M : ℕ} (hwf : WF envM n e M) (x : ℕ → ℝ) (hs : Safe envF envM n e x)
+    (idx : Option (List ℕ)) (scale : List ℝ) (K' : ℕ) (hK : selLen idx M = K' + 1)
+    (hsel : ∀ k, k < selLen idx M → selIdx idx k < M)
+    (huniq : ∀ k, k < K' + 1 →
+      k ≠ argmaxTo (K' + 1) (fun k => den envF envM n e x (selIdx idx k) * vec scale (bi scale.length k)) →
+      den envF envM n e x (selIdx idx k) * vec scale (bi scale.length k)
+        < den envF envM n e x (selIdx idx (argmaxTo (K' + 1)
+            (fun k => den envF envM n e x (selIdx idx k) * vec scale (bi scale.length k))))
+          * vec scale (bi scale.length (argmaxTo (K' + 1)
+            (fun k => den envF envM n e x (selIdx idx k) * vec scale (bi scale.length k))))) :
+    Den n x (evalTree env thr n (.agg .max idx scale e) x)
+      (fun y _ => maxTo (K' + 1)
+        (fun k => den envF envM n e y (selIdx idx k) * vec scale (bi scale.length k))) 1 := by
+  have h := tree_value_and_jacobian_exact env envF envM thr henv hwf x hs
+  simpa [evalTree, build, Obj.eval] using aggMax_den h idx scale K' hK hsel huniq
+
+/-- `compute_quadratic_approximation` of a scalar tree with a symmetric Hessian approximation:
+    the quadratic function is the second-order Taylor polynomial and its gradient is exact. -/
+theorem taylor_second_order_exact [LT 𝕜] [DecidableRel (α := 𝕜) (· < ·)]
+    (env : ℕ → ℕ → (ℕ → 𝕜) → DV 𝕜) (envF : ℕ → ℕ → (ℕ → 𝕜) → ℕ → 𝕜) (envM : ℕ → ℕ → ℕ) (thr : 𝕜)
+    (henv : ∀ id n y, Den n y (env id n y) (envF id n) (envM id n))
+    {n : ℕ} {e : Expr 𝕜} (hwf : WF envM n e 1) (xh : List 𝕜) (hs : Safe envF envM n e (vec xh))
+    (H : List (List 𝕜)) (hsym : ∀ i j, i < n → j < n → mat H i j = mat H j i)
+    (h2 : (1 + 1 : 𝕜) ≠ 0) (x : ℕ → 𝕜) :
+    Den n x (evalTree env thr n (.taylor2 xh H e) x)
+      (fun y _ => den envF envM n e (vec xh) 0
+        + sumTo n (fun j => deriv (fun t : 𝕜 => den envF envM n e (vec xh + t • basisVec j) 0) 0
+            * (y j - vec xh j))
+        + half * sumTo n (fun i => sumTo n (fun j => mat H i j * (y i - vec xh i) * (y j - vec xh j)))) 1 := by
+  have h := tree_value_and_jacobian_exact env envF envM thr henv hwf (vec xh) hs
+  simpa [evalTree, build, Obj.eval] using taylor2_den h (mat H) hsym h2 x
+
+/-- `ConvexLinearApprox` of a tree (ℝ): the Jacobian is the exact derivative of the convex
+    linearisation the code evaluates, at every point off the switching set
+    `|x_j - x̂_j| = threshold` of the approximated inputs. -/
+theorem convex_linear_exact
+    (env : ℕ → ℕ → (ℕ → ℝ) → DV ℝ) (envF : ℕ → ℕ → (ℕ → ℝ) → ℕ → ℝ) (envM : ℕ → ℕ → ℕ) (thr : ℝ)
+    (hthr : 0 ≤ thr) (henv : ∀ id n y, Den n y (env id n y) (envF id n) (envM id n))
+    {n : ℕ} {e : Expr ℝ} {M : ℕ} (hwf : WF envM n e M) (xh : List ℝ) (mask : List Bool) (x : ℕ → ℝ)
+    (hs : Safe envF envM n e (mergePt (fun j => mask.getD j false) (vec xh) x))
+    (hreg : ∀ j, j < n → mask.getD j false = true → |x j - vec xh j| ≠ thr) :
+    Den n x (evalTree env thr n (.convexLin xh (some mask) e) x)
+      (clFn n thr ((evalTree env thr n e (vec xh)).jac) (vec xh) (fun j => mask.getD j false)
+        (den envF envM n e)) M := by
+  have h := tree_value_and_jacobian_exact env envF envM thr henv hwf _ hs
+  simpa [evalTree, build, Obj.eval] using
+    convexLin_den hthr ((evalTree env thr n e (vec xh)).jac) (vec xh) (fun j => mask.getD j false) h hreg
+
+/-- At the expansion point the convex linearisation takes the value of the function. -/
+theorem convex_linear_matches_at_expansion_point (n : ℕ) (thr : ℝ) (hthr : 0 ≤ thr)
+    (J0 : ℕ → ℕ → ℝ) (xh : ℕ → ℝ) (mask : ℕ → Bool) (fm : DV ℝ) (i : ℕ) :
+    (convexLin n thr J0 xh mask fm xh).val i = fm.val i :=
+  convexLin_value_at_expansion_point n thr hthr J0 xh mask fm i
+
+end SpecialNodes
 
 /-! ### Smooth maximum aggregations bound the maximum from the documented side (ℝ) -/
 
